@@ -73,7 +73,29 @@ func GenUntrusted(t *rapid.T) UntrustedCase {
 	} else {
 		c.Msg = gen.AnyMsg(sz).Draw(t, "msg")
 	}
-	c.Muts = rapid.SliceOfN(rapid.Custom(genMut), 1, 3).Draw(t, "muts")
+	// (session 3) shapes a decoder accepts but an encoder never produces from ordinary values:
+	// a stat record filled by its strings up to the last values its 16-bit size field can hold
+	// (65534 and 65535 make the *outer* size of Rstat/Twstat wrap), and directory entries whose
+	// names end in one or more slashes; both with and without further mutation
+	if special := rapid.IntRange(0, 11).Draw(t, "special"); special < 2 {
+		if !c.AsDir {
+			c.Msg = refwire.Msg{Kind: rapid.SampledFrom([]uint8{refwire.Rstat, refwire.Twstat}).Draw(t, "statkind"), Tag: gen.U16().Draw(t, "tag"), Fid: gen.U32().Draw(t, "fid"), Stat: c.Msg.Stat}
+			c.Msg.Stat = gen.Stat(sz).Draw(t, "stat2")
+		}
+		st := &c.Msg.Stat
+		if special == 0 {
+			total := 65535 - 39 - 8 - rapid.IntRange(0, 3).Draw(t, "under") // size field 65535-under
+			cut := rapid.SampledFrom([]int{0, 1, 2, total / 2, total - 3}).Draw(t, "cut")
+			st.Name, st.UID, st.GID, st.MUID = harn.B(bytes.Repeat([]byte{'n'}, total-cut)), harn.B(bytes.Repeat([]byte{'u'}, cut)), nil, nil
+		} else {
+			st.Mode |= 0x80000000
+			if len(st.Name) > 60000 {
+				st.Name = st.Name[:100]
+			}
+			st.Name = append(append(harn.B(nil), st.Name...), harn.B(rapid.SampledFrom([]string{"/", "//", "///", "/.", "/..", "/./"}).Draw(t, "slashes"))...)
+		}
+	}
+	c.Muts = rapid.SliceOfN(rapid.Custom(genMut), 0, 3).Draw(t, "muts")
 	return c
 }
 
